@@ -42,14 +42,14 @@ inductive WSt where
   | waiting                 -- !done
   | gotConn (c : Conn)      -- delivered, value still in the result channel
   | gotErr                  -- error delivered
-  | using (c : Conn)        -- getConn received the connection: the request owns it
+  | inUse (c : Conn)        -- getConn received the connection: the request owns it
   | finished                -- request over (connection given back or closed) / error consumed
   | canceled
 deriving DecidableEq, Repr
 
 def WSt.holds : WSt → Conn → Bool
   | .gotConn c, d => c == d
-  | .using c, d => c == d
+  | .inUse c, d => c == d
   | _, _ => false
 
 /-- function update -/
@@ -260,7 +260,7 @@ def step (cfg : Cfg) (s : St) : Op → St × Out
     else ({ s with cancelNil := upd s.cancelNil w true }, .none)
   | .recv w =>
     match s.wst w with
-    | .gotConn c => ({ s with wst := upd s.wst w (.using c) }, .none)
+    | .gotConn c => ({ s with wst := upd s.wst w (.inUse c) }, .none)
     | .gotErr => ({ s with wst := upd s.wst w .finished }, .none)
     | _ => (s, .ignored)
   | .cancel w =>
@@ -285,7 +285,7 @@ def step (cfg : Cfg) (s : St) : Op → St × Out
     else (closeConn cfg { s with transit := s.transit.erase c } c, .none)
   | .finishPut w =>
     match s.wst w with
-    | .using c =>
+    | .inUse c =>
       match s.ckey c with
       | none => (s, .ignored)
       | some k =>
@@ -294,7 +294,7 @@ def step (cfg : Cfg) (s : St) : Op → St × Out
     | _ => (s, .ignored)
   | .finishClose w =>
     match s.wst w with
-    | .using c => (closeConn cfg { s with wst := upd s.wst w .finished } c, .none)
+    | .inUse c => (closeConn cfg { s with wst := upd s.wst w .finished } c, .none)
     | _ => (s, .ignored)
   | .serverCloseIdle c =>
     match s.ckey c with
